@@ -436,6 +436,28 @@ def fam_C02(rng, tier):
                              rng.choice([1, 2, 255, 256, 65535]) if qos else None,
                              rng.choice([0, 1]), rng.choice([0, 1]), ps))
         out.append(s.script())
+    # packets whose ENCODED length sits exactly on / next to the receive buffer's growth steps (512 bytes), alone and as the
+    # last packet of a burst whose total length does
+    def publish_total(total, sid, fill):
+        n = max(0, total - 12)
+        while True:
+            pk = m.publish(b'a', bytes([fill] * n), 0, None, 0, 0, [(11, sid)])
+            if len(pk) == total:
+                return pk
+            n += total - len(pk)
+    totals = [510, 511, 512, 513, 514, 515, 1023, 1024, 1025, 1026] + ([] if tier == 'quick' else
+                                                                       [1535, 1536, 1537, 2047, 2048, 2049, 4096, 4097, 16383, 16384, 16385])
+    for L in totals:
+        s = Sess(f'c02-exact-{L}')
+        s.connect()
+        op, sid = s.subscribed_stream()
+        s.feed(publish_total(L, sid, 7))
+        out.append(s.script())
+        s = Sess(f'c02-exactburst-{L}')
+        s.connect()
+        op, sid = s.subscribed_stream()
+        s.feed(publish_total(300, sid, 1) + publish_total(L - 300, sid, 2))
+        out.append(s.script())
     # PUBACK / PUBREC / PUBCOMP through publish(), every reason and form
     i = 0
     for kind, reasons in [('puback', m.PUBACK_REASONS), ('pubrec', m.PUBREC_REASONS), ('pubcomp', m.PUBCOMP_REASONS)]:
@@ -1137,6 +1159,30 @@ def fam_C06(rng, tier):
                     out.append(s.script())
     out += fam_walk(rng, tier, 'c06-walk', 40 if tier == 'quick' else 1000, lambda r: r.choice([20, 60]),
                     weights=dict(sub=0, unsub=0, ping=1, inbound=0, pubrel=0, stream=0), allow_poll=True, batch=0.15)
+    # the send quota is EXACTLY used up when the PUBREL of a QoS 2 exchange is submitted (Receive Maximum 1; or other
+    # publishes take the remaining slots between the PUBREC and the delayed poll of the QoS 2 future)
+    for R in [1, 2, 3]:
+        for delayed in [False, True]:
+            for r1 in [0, 0x10]:
+                s = Sess(f'c06-r{R}-{int(delayed)}-{r1}')
+                s.connect(connack_ps=[(33, R)])
+                op, pid = s.publish(2, fields=[('p', b'q2')], topic=b't/1')
+                if delayed:
+                    s.add(f'HOLD op{op}')
+                s.feed(m.ack('pubrec', pid, r1 or None))
+                others = [s.publish(1) for _ in range(R - 1)]          # fill the remaining slots
+                s.publish(1)                                            # refused for the quota
+                if delayed:
+                    s.add(f'RELEASE op{op}')
+                s.feed(m.ack('pubcomp', pid))
+                for o, p2 in others:
+                    s.feed(m.ack('puback', p2))
+                s.publish(2)
+                out.append(s.script())
+    out += fam_walk(rng, tier, 'c06-smallR', 25 if tier == 'quick' else 600, lambda r: r.choice([20, 60]),
+                    recv_max=lambda r: r.choice([1, 1, 2, 3]),
+                    weights=dict(pub0=1, pub1=3, pub2=7, sub=0, unsub=0, ping=1, ack=9, inbound=0, pubrel=0, stream=0),
+                    allow_poll=True, batch=0.1)
     return out
 
 
@@ -1200,8 +1246,11 @@ def fam_C08(rng, tier):
 
 def fam_C09(rng, tier):
     out = []
-    syms = [('P', 1, 0), ('P', 1, 1), ('P', 2, 0), ('P', 2, 1), ('R', 1, 0), ('R', 2, 0)]
-    L = 3 if tier == 'quick' else 5
+    # ('R', pid, f): PUBREL in form f — 0 short, 1 with reason 0x00, 2 with reason 0x92, 3 with reason 0x92 and properties
+    syms = [('P', 1, 0), ('P', 1, 1), ('P', 2, 0), ('P', 2, 1), ('R', 1, 0), ('R', 2, 0), ('R', 1, 2), ('R', 1, 3)]
+    if tier != 'quick':
+        syms += [('R', 1, 1), ('R', 2, 2)]
+    L = 3 if tier == 'quick' else 4
     i = 0
     for k in range(1, L + 1):
         for seq in itertools.product(syms, repeat=k):
@@ -1213,7 +1262,7 @@ def fam_C09(rng, tier):
                 if t == 'P':
                     s.feed(m.publish(b'a', bytes([65 + n]), 2, pid, dup, 0, [(11, sid)]))
                 else:
-                    s.feed(m.ack('pubrel', pid))
+                    s.feed(m.ack('pubrel', pid, [None, 0, 0x92, 0x92][dup], [(31, b'gone')] if dup == 3 else None))
             out.append(s.script())
     out += fam_walk(rng, tier, 'c09-walk', 30 if tier == 'quick' else 1000, 60,
                     weights=dict(pub0=0, pub1=1, pub2=0, sub=2, unsub=0, ping=0, ack=3, inbound=10, pubrel=6, stream=3),
@@ -1357,6 +1406,10 @@ def fam_C11(rng, tier):
             else:
                 s.feed(m.suback(pid, [0]))
     out.append(s.script())
+    out += fam_walk(rng, tier, 'c11-refused', 25 if tier == 'quick' else 600, lambda r: r.choice([30, 80]), clones=3,
+                    recv_max=lambda r: r.choice([1, 2]), max_pkt=64,
+                    weights=dict(pubbig=4, pub0=1, pub1=6, pub2=4, sub=3, unsub=3, ping=0, ack=5, inbound=0, pubrel=0, stream=0),
+                    batch=0.35, snap=False)
     out += fam_walk(rng, tier, 'c11-walk', 10 if tier == 'quick' else 200, 150, clones=3,
                     weights=dict(inbound=0, pubrel=0, stream=0), batch=0.2)
     return out
@@ -1391,6 +1444,27 @@ def fam_C12(rng, tier):
                 s.ping()
                 s.feed(m.pingresp())
             out.append(s.script())
+    # the client's OWN Maximum Packet Size / Receive Maximum (CONNECT) limit what it receives, never what it sends
+    for kind in kinds:
+        for own in [1, 16]:
+            for M in [None, 30]:
+                for via in [False, True]:
+                    s = Sess(f'c12own-{kind}-{own}-{M}-{int(via)}')
+                    s.connect([('cid', b'c'), ('mps', own), ('rm', 1)], connack_ps=[(39, M)] if M is not None else [], via_auth=via)
+                    if kind.startswith('pub'):
+                        s.publish(int(kind[3]), fields=[('p', b'0123456789')], topic=b'topic/x')      # 24..26 bytes
+                        s.publish(int(kind[3]), fields=[('p', b'0123456789012345678901234567890')], topic=b'topic/x')
+                        s.publish(1, topic=b'a')
+                        s.publish(1, topic=b'a')
+                    elif kind == 'sub':
+                        s.subscribe([(b'filter/#', '1101'), (b'b', '2000')])
+                    elif kind == 'unsub':
+                        s.unsubscribe([b'filter/#', b'b'])
+                    elif kind == 'ping':
+                        s.ping()
+                    else:
+                        s.disconnect([('r', 4), ('rs', b'bye')])
+                    out.append(s.script())
     # random traffic under a size limit that the ordinary requests of the walk fit in and the 'pubbig' ones do not
     out += fam_walk(rng, tier, 'c12-walk', 40 if tier == 'quick' else 1500, lambda r: r.choice([15, 40, 80]),
                     max_pkt=64, recv_max=lambda r: r.choice([None, 2, 4]),
@@ -1637,6 +1711,31 @@ def fam_C14(rng, tier):
                 s.add(f'RELEASE st{op}')
             for _ in range(2):
                 s.add(f'POLL st{op}')
+            out.append(s.script())
+    for kind in ['pub0', 'pub1', 'pub2', 'sub', 'unsub', 'ping', 'disc']:
+        for phase in ['queued', 'written', 'run-cancelled', 'socket-closed']:
+            s = Sess(f'c14-pending-{kind}-{phase}')
+            s.connect()
+            s.add('CLONE h0 h1')
+            if phase == 'queued':
+                s.add('HOLD ctx')              # the request stays in the queue: never handled
+            elif phase == 'run-cancelled':
+                s.add('DROPFUT')               # run() is cancelled first, then the request is issued, then the drop
+            elif phase == 'socket-closed':
+                s.add('FEEDEOF')               # run() returned SocketClosed; the Context still exists
+            if kind.startswith('pub'):
+                op, _ = s.publish(int(kind[3]), 1)
+            elif kind == 'sub':
+                op, _, _ = s.subscribe(h=1)
+            elif kind == 'unsub':
+                op, _ = s.unsubscribe(h=1)
+            elif kind == 'ping':
+                op = s.ping(1)
+            else:
+                op = s.disconnect([('r', 0)], h=1)
+            s.add('DROPCTX')
+            s.add('RELEASE ctx')
+            s.add(f'POLL op{op}')
             out.append(s.script())
     for kind in ['pub1', 'pub2-rec', 'pub2-comp', 'sub', 'unsub', 'ping', 'pub0']:
         for failing in [False, True]:
